@@ -385,15 +385,6 @@ class QasmProcessor:
                 if command[0] == "{":
                     raise SyntaxError("QASM: incorrect bracket formatting")
                 elif command[0] == "}":
-                    if not curr_gate.gates_inside:
-                        raise NotImplementedError(
-                            "QASM: opaque gate {} are  \
-                                                   not allowed, please define \
-                                                   or omit \
-                                                   them".format(
-                                curr_gate.name
-                            )
-                        )
                     open_bracket_mode = False
                     self.gate_names.add(curr_gate.name)
                     self.qasm_gates[curr_gate.name] = curr_gate
